@@ -89,15 +89,24 @@ func runCR(k c18Case, input []byte, drain bool) (r crRun) {
 		return
 	}
 	buf := make([]byte, 0, 1<<20)
+	lastSz, lastN := -1, -1
 	step := func(sz int) (done bool) {
 		if cap(buf) < sz {
 			buf = make([]byte, sz)
+			lastSz = -1
 		}
 		p := buf[:sz]
-		for i := range p {
-			p[i] = 0xA5
+		// the caller's buffer carries a pattern, so bytes the reader claims but did not write show;
+		// after a short read only the part that was handed back needs refilling
+		dirty := p
+		if sz == lastSz && lastN >= 0 && lastN <= sz {
+			dirty = p[:lastN]
+		}
+		for i := range dirty {
+			dirty[i] = 0xA5
 		}
 		n, err := zr.Read(p)
+		lastSz, lastN = sz, n
 		switch {
 		case n < 0 || n > sz:
 			r.sig, r.what = "compressing reader: Read returns n outside 0..len(p)", fmt.Sprintf("n=%d len=%d", n, sz)
@@ -107,6 +116,12 @@ func runCR(k c18Case, input []byte, drain bool) (r crRun) {
 			return true
 		}
 		r.stream = append(r.stream, p[:n]...)
+		if len(r.stream) > 2*len(input)+(1<<16) {
+			// a frame of this source cannot be that long (stored blocks + 8 bytes each + header and
+			// trailer): the reader would go on forever
+			r.sig, r.what = "compressing reader: emits far more bytes than any frame of the source holds (it never reaches io.EOF)", fmt.Sprintf("%d bytes for a %d-byte source", len(r.stream), len(input))
+			return true
+		}
 		if err != nil {
 			if k.Fail > 0 {
 				if !errors.Is(err, errInjected) {
@@ -289,7 +304,15 @@ func c18Run(c *ev.Ctx) {
 				probe := &fragSource{data: input, pat: fragPatterns()[f]}
 				zr := lz4.NewCompressingReader(nopCloser{probe})
 				zr.Apply(o.crOptions(len(input))...)
-				io.Copy(io.Discard, zr)
+				func() {
+					defer func() { recover() }() // a panic here is reported by the histories above
+					tmp := make([]byte, 1<<16)
+					for i := 0; i < 2*len(input)/(1<<16)+64; i++ {
+						if _, err := zr.Read(tmp); err != nil {
+							break
+						}
+					}
+				}()
 				ncalls := probe.calls
 				if f == 0 && ncalls > 300 {
 					ncalls = 300
@@ -368,7 +391,12 @@ func c18Reuse(c *ev.Ctx) {
 							buf := make([]byte, first)
 							switch how {
 							case "eof":
-								io.Copy(io.Discard, zr)
+								tmp := make([]byte, 4096)
+								for i := 0; i < 1<<12; i++ { // bounded: a reader that never ends is reported below or by the main histories
+									if _, err := zr.Read(tmp); err != nil {
+										break
+									}
+								}
 							case "abandon-pending", "source-error":
 								zr.Read(buf) // a short read leaves the rest of the step in the overflow buffer
 							case "abandon-fresh":
